@@ -169,6 +169,13 @@ package kmipclient
 //@   pure
 //@   ghost connBroken = false
 
+// reads the connection's own state (atomic flag, context): true exactly for a connection ended by a fault
+//@ func (*conn).broken
+//@   trusted
+//@   requires c != nil
+//@   ensures r0 == connBroken
+//@   pure
+
 //@ func newConn
 //@   trusted
 //@   ensures r0 != nil && isnew(r0)
@@ -204,6 +211,7 @@ package kmipclient
 //@   ghost rtErr = r1
 //@   loop 0 invariant 0 <= retry && retry <= 3 && lockHeld == 1 && c.conn != nil
 //@   loop 0 invariant transmissions-old(transmissions) == 3-retry && dials-old(dials) >= 0 && dials-old(dials) <= 4-retry
+//@   loop 0 invariant old(c.conn) != nil && old(connBroken) ==> dials-old(dials) >= 1
 //@   loop 0 ghostmod transmissions, dials, lastErrRetryable, connBroken
 
 //@ func (*Client).Close
